@@ -73,7 +73,7 @@ def check_result(cfg, where, model, loss, names, data, result, events, original,
         diffs = [vals[s] - vals[s + 1] for s in range(d)]
         x_i = data[i][0]
         if not original and imputes:
-            imps = imputes[i * d:(i + 1) * d]
+            imps = sorted(imputes[i * d:(i + 1) * d], key=lambda e: -len(e[1]))
             if len(imps) != d:
                 bad('chain-length', f"observation {i + 1}: {len(imps)} imputer calls")
             remaining = set(names)
